@@ -101,7 +101,7 @@ def check_c12(rep):
     q = rep.tier == "quick"
     sc = [(f"c12-{p}-{s}", p, *GC.c10_script(s, p, subscribers=True, raising=(i % 3 == 0))) for i, s in enumerate(seeds(500 if q else 10000, 12))
           for p in (("at4",) if i % 2 == 0 else ("at5",))]
-    run_generated(rep, "histories with subscribe / unsubscribe / double-subscribe placements, raising subscribers, unchanged repeats", sc)
+    run_generated(rep, "histories with subscribe / unsubscribe / double-subscribe placements, raising subscribers, subscribers that (un)subscribe inside their callback, unchanged repeats", sc)
     rep.assumptions += API_ASSUME
 
 
